@@ -34,6 +34,10 @@ ASSUMPTIONS = [
 ]
 
 
+GETTER_ERRORS = {"ValueError": ValueError, "KeyError": KeyError, "AttributeError": AttributeError,
+                 "TypeError": TypeError, "RuntimeError": RuntimeError, "LookupError": LookupError}
+FAILURES = tuple(GETTER_ERRORS.values())
+
 # ---- sequential ------------------------------------------------------------------
 
 
@@ -49,7 +53,8 @@ def seq_histories(draw, tier):
     )
     return {"ops": [list(o) for o in draw(st.lists(op, min_size=draw(st.sampled_from([0, 5])),
                                                    max_size=40 if tier == "quick" else 60))],
-            "lock": draw(st.booleans()), "susp": draw(st.integers(0, 1))}
+            "lock": draw(st.booleans()), "susp": draw(st.integers(0, 1)),
+            "exc": draw(st.sampled_from(sorted(GETTER_ERRORS)))}
 
 
 def make_class(ctx, runs, case, fail_flags):
@@ -64,7 +69,7 @@ def make_class(ctx, runs, case, fail_flags):
             if fail_flags.get(self.tag):
                 fail_flags[self.tag] = False
                 rec[1] = "failed"
-                raise ValueError("planned getter failure")
+                raise GETTER_ERRORS[case.get("exc", "ValueError")]("planned getter failure")
             value = ["value", self.tag, len(runs)]
             rec[1] = "returned"
             rec.append(value)
@@ -102,7 +107,7 @@ def check_seq(case):
         will_fail = fail_flags.get(i) and model[i] is None
         try:
             value = await awaitable
-        except ValueError:
+        except FAILURES:
             if not will_fail:
                 return ("unexpected-getter-failure", f"instance {i}")
             if len(runs) != before + 1:
@@ -196,7 +201,7 @@ def conc_configs(draw, tier):
             "susp": draw(st.integers(1, 2)),
             "deleter": draw(st.one_of(st.none(), st.integers(0, 3))),
             "fail_run": draw(st.one_of(st.none(), st.none(), st.integers(1, 2))),
-            "cancel": list(cancel) if cancel else None,
+            "cancel": list(cancel) if cancel else None, "exc": draw(st.sampled_from(sorted(GETTER_ERRORS))),
             "choices": draw(st.lists(st.integers(0, 4), max_size=40))}
 
 
@@ -223,7 +228,7 @@ def run_conc(case, choices=None, default="rr"):
                 await ctx.suspend(("getter", n))
             if case["fail_run"] == n:
                 rec[0] = "failed"
-                raise ValueError("planned getter failure")
+                raise GETTER_ERRORS[case.get("exc", "ValueError")]("planned getter failure")
             value = ["value", n]
             rec[0], rec[1] = "returned", value
             return value
@@ -252,7 +257,7 @@ def run_conc(case, choices=None, default="rr"):
                 flags["shared-placeholder"] = True
             try:
                 value = await obj.prop
-            except ValueError:
+            except FAILURES:
                 continue
             finally:
                 waiting[0] -= 1
@@ -307,7 +312,7 @@ def run_conc(case, choices=None, default="rr"):
     # afterwards: served from the cache
     before = len(runs)
     first = run(ctx, _get(obj))
-    if first[0] == "raise" and isinstance(first[1], ValueError) and case["fail_run"] == before + 1:
+    if first[0] == "raise" and isinstance(first[1], FAILURES) and case["fail_run"] == before + 1:
         first = run(ctx, _get(obj))
     if first[0] != "return":
         return sched, [("unusable-after-quiescence", f"{first!r} {detail}")], flags
